@@ -88,7 +88,7 @@ Drain ==
 
 Reserve ==
   /\ phase = "reserve" /\ i <= Len(drained)
-  /\ LET r == RadixStep(marks, CandFP(drained[i]))
+  /\ LET r == RadixStep(marks, CandFP(drained[i], pre))
      IN marks' = r.marks /\ acc' = Append(acc, r.ok)
   /\ i' = i + 1
   /\ UNCHANGED <<pre, preName, hist, pending, phase, drained, post, ok>>
@@ -122,7 +122,7 @@ Inv_OutcomeIsFunctionOfSet ==
 Inv_DrainSorted == \A k \in 1..(Len(drained) - 1) : KeyRank[drained[k]] < KeyRank[drained[k + 1]]
 \* accepted rewrites are pairwise independent, and every rejected one conflicts with an earlier accepted one
 Inv_AcceptedIndependent ==
-  Done => \A x, y \in 1..Len(drained) : (x # y /\ acc[x] /\ acc[y]) => ~Conflicts(CandFP(drained[x]), CandFP(drained[y]))
+  Done => \A x, y \in 1..Len(drained) : (x # y /\ acc[x] /\ acc[y]) => ~Conflicts(CandFP(drained[x], pre), CandFP(drained[y], pre))
 \* post-state contains the effect of every accepted rewrite evaluated at `pre`, and nothing else:
 \* it equals pre patched by exactly those ops
 Inv_PostIsPrePlusAccepted ==
@@ -163,6 +163,7 @@ CaseJson ==
       blk |-> [k \in 1..Len(drained) |-> O.blockers[k]],
       ok |-> ok, post |-> StateJson(post),
       patch |-> [k \in 1..Len(d) |-> OpJson(d[k])],
+      descent |-> [w \in DOMAIN pre.inst |-> {KeyJson(k) : k \in DescentOf(pre, w)}],
       prog |-> [k \in 1..Len(Prog) |-> Prog[k]]]
 Inv_Export == (Export /\ Done) => PrintT(<<"CASE", ToJson(CaseJson)>>)
 =============================================================================
